@@ -148,7 +148,7 @@ Proof.
     - exists root. split; [reflexivity|]. split; [exact Hok | apply same_head_refl].
     - destruct (fo_fa cat_in isw isew f strict root []) as [r1| | |] eqn:E1; cbn [bind] in H; try discriminate.
       exists r1. split; [reflexivity|].
-      destruct (fa_sound cat_in isw isew sid e sets Henv strict Hs0 Hs1 Hs2 Hs3 f root [] r1 E1 Hok (Forall_nil _)) as [Hr1 HHK].
+      destruct (fa_sound cat_in isw isew sid e sets Henv strict Hs0 Hs1 Hs2 f root [] r1 E1 Hok (Forall_nil _)) as [Hr1 HHK].
       split; [exact Hr1|]. intros s Hs. apply (HK_kid_den e _ _ (HHK (kid) (KT_kid e)) s Hs). }
   destruct H1 as (r1 & E1 & Hr1 & Hh1). rewrite E1 in H. cbn [bind] in H.
   (* ending backtracking *)
